@@ -218,6 +218,10 @@ package components
 //@   loop 0 invariant stable: p == old(p) && p.outPorts == old(p.outPorts) && selOutsOK(p)
 //@   loop 1 invariant passed-so-far: forall k string :: $visited[k] ==> k in ips && selIncludes(ips[k])
 //@   loop 1 invariant stable: p == old(p) && p.outPorts == old(p.outPorts) && selOutsOK(p) && ips != nil && (forall k string :: k in ips ==> validIP(ips[k]) && selTupleKey(k))
+// every member of a tuple that passed is sent: the sending loop visits every member (it is left only when the tuple is
+// exhausted) and every visit sends one IP (the member, on the port of its name: the atcall clauses above)
+//@   loop 2 exhaustive every-member-of-a-passing-tuple-is-visited[C19]: true
+//@   loop 2 step every-visit-sends-once[C19]: outN[p.outPorts[iname]] == prev(outN)[p.outPorts[iname]] + 1
 //@   loop 2 invariant all-pass: forall k string :: k in ips ==> selIncludes(ips[k])
 //@   loop 2 invariant stable: p == old(p) && p.outPorts == old(p.outPorts) && selOutsOK(p) && ips != nil && (forall k string :: k in ips ==> validIP(ips[k]) && selTupleKey(k))
 
